@@ -17,6 +17,7 @@ P-writers   nothing but the bump functions, constructors, restart, discard and t
 import collections, glob, os, re, subprocess, json
 from .. import core, units, bits
 from ..bits import *
+from ..bits import Abort
 from . import c10
 
 T = 'tao::pegtl::'; TI = T + 'internal::'
@@ -76,18 +77,32 @@ def check_effects(sp, it, fn, outs, ch, report, covered):
 
 def analyse_shortcuts(db, R, kinds, covered):
     for fn in db.order:
-        if fn['n'] != 'match' or '/tao/pegtl/' not in fn['pat'] or len(fn.get('params', [])) != 1: continue
+        if fn['n'] != 'match' or '/tao/pegtl/' not in fn['pat'] or not fn.get('params'): continue
         eol = eol_of(fn)
         if eol is None: continue
         from ..exc import walk
-        if walk(fn.get('body'), lambda n: n.get('k') == 'call' and n.get('cn') == 'match', []): continue      # combinators: their sub-rules do the consuming
         cls = fn.get('cls') or {}
         if not cls: continue
+        combinator = bool(walk(fn.get('body'), lambda n: n.get('k') == 'call' and n.get('cn') == 'match', []))
+        if combinator and not walk(fn.get('body'), lambda n: n.get('k') == 'call' and n.get('cn') in ('bump', 'bump_in_this_line', 'bump_to_next_line') and (n.get('obj') or {}).get('n') == 'in', []):
+            continue      # combinators that leave all consuming to their sub-rules
         rule = (cls.get('s') or fn['q']).replace(TI, '').replace(T, '').replace('result_on_found::', '')
         ch = EOLCH[eol]
         try:
             sp = c10.space('be'); it = Interp(db, sp)
             st = St(sp.full()); st.env[fn['params'][0]['id']] = Opaque('input')
+            if combinator:
+                # a combinator that advances the cursor itself (until): its sub-rules are oracles - a failed attempt consumes nothing and tells nothing about the
+                # bytes, a successful one ends the part of the path this analysis looks at; guards are transparent
+                def oracle(itp, e, ov, av, s0):
+                    if not (e.get('cc') and e.get('static')): return None
+                    def g():
+                        yield Val.const(0), s0.fork(s0.cond)
+                        yield Abort('window'), s0
+                    return g()
+                it.intercept['match'] = oracle
+                it.intercept['auto_rewind'] = lambda itp, e, ov, av, s0: iter([(Opaque('guard'), s0)])
+                it.intercept['operator()'] = lambda itp, e, ov, av, s0: (iter([(av[0] if av else Val.const(1), s0)]) if isinstance(ov, Opaque) and ov.tag == 'guard' else None)
             outs = outcomes(it, fn, st)
         except (Unmodelled, Blowup) as e:
             R.broke('%s over eol::%s: %s' % (rule, eol, e)); continue
@@ -240,6 +255,39 @@ def check_forward(db, fn, pol, lazy):
                 if differs(sp, s.cond, v, binop('+', B, Val.const(count if lazy else 0))) is not None:
                     probs.append('byte() is not the initial byte plus the bytes consumed (%s tracking)' % ('lazy' if lazy else 'eager'))
     return sorted(set(probs))[:4]
+
+
+def analyse_ctors(db, R, kinds):
+    """P-ctor: an input constructed from a counter-carrying iterator starts at exactly those counters (eager: the cursor; lazy: the begin iterator the position is
+    recomputed from), an input constructed from a plain pointer at 0:1:1; evaluated from the member-init lists (delegation followed)"""
+    for fn in db.order:
+        cls = fn.get('cls') or {}
+        if (cls.get('tn') or '') != TI + 'memory_input_base' or not fn.get('ctor') or '/tao/pegtl/' not in fn['pat'] or len(fn.get('params', [])) != 3: continue
+        lazy = 'tracking_mode::lazy' in (cls.get('s') or '')
+        from_iter = 'inputerator' in fn['params'][0]['t']
+        sp = Space()
+        for v in ('L', 'C', 'B'): sp.var(v, 4)
+        it = Interp(db, sp)
+        L, C, B = (Val({sp.byname[v].level: [10 * (i + 1) + x for x in range(4)]}) for i, v in enumerate(('L', 'C', 'B')))
+        a0 = Rec({'data': Ptr('cur', 0), 'byte': B, 'line': L, 'column': C}) if from_iter else Ptr('cur', 0)
+        want = (B, L, C) if from_iter else (Val.const(0), Val.const(1), Val.const(1))
+        probs = []
+        try:
+            for obj, s in it.run_ctor(fn, [a0, Ptr('end', 0), Opaque('source')], St(sp.full())):
+                if not isinstance(obj, Rec): raise Unmodelled('constructor result %r' % (obj,))
+                start = obj.f.get('m_begin' if lazy else 'm_current')
+                if not isinstance(start, Rec): raise Unmodelled('the %s of the constructed input is %r' % ('begin iterator' if lazy else 'cursor', start))
+                for f, w in zip(('byte', 'line', 'column'), want):
+                    if differs(sp, s.cond, start.f.get(f), w) is not None:
+                        probs.append('an input constructed from %s starts with a %s counter that is not %s' % ('an iterator with counters' if from_iter else 'a plain pointer', f, 'the one of that iterator' if from_iter else {'byte': 0, 'line': 1, 'column': 1}[f]))
+                if not (isinstance(start.f.get('data'), Ptr) and start.f['data'].off == 0): probs.append('the constructed input does not start at the given data pointer')
+                if lazy and not (isinstance(obj.f.get('m_current'), Ptr) and obj.f['m_current'].off == 0): probs.append('the cursor of the lazy input does not start at the given data pointer')
+        except (Unmodelled, Blowup, KeyError) as e:
+            R.broke('constructor %s: %s' % (fn['disp'][:120], e)); continue
+        kinds['ctor'] += 1
+        R.ob(ok=not probs, key=('ctor', fn['disp']))
+        for pmsg in sorted(set(probs)):
+            R.violation('P-ctor', 'memory_input.hpp::memory_input_base', '%s tracking: %s' % ('lazy' if lazy else 'eager', pmsg), {'function': fn['disp'][:160]}, key=('ctor', lazy, from_iter, pmsg))
 
 
 def analyse_forward(db, R, kinds, covered):
@@ -470,6 +518,7 @@ def run(tier):
     analyse_shortcuts(db, R, kinds, covered)
     analyse_bump(db, R, kinds)
     analyse_forward(db, R, kinds, covered)
+    analyse_ctors(db, R, kinds)
     analyse_subinputs(db, R, kinds)
     analyse_writers(R, kinds, tier)
     analyse_scanners(R, kinds, covered, tier)
@@ -478,7 +527,7 @@ def run(tier):
     for site in sorted(set(sites) - set(covered)):
         R.broke('the position shortcut at %s (%s) is not reached by any analysed instantiation: it cannot be justified' % (site, sites[site]))
     R.cov['obligations_by_kind'] = dict(kinds)
-    for k, fl in (('shortcut', 220), ('bump', 3), ('forward', 55), ('scanner', 12), ('subinput', 2), ('writer', 11)):
+    for k, fl in (('shortcut', 220), ('bump', 3), ('forward', 55), ('scanner', 12), ('subinput', 2), ('writer', 11), ('ctor', 8)):
         if kinds.get(k, 0) < fl: R.broke('only %d %s obligations (floor %d)' % (kinds.get(k, 0), k, fl))
     R.assumptions = ['UTF-16/32 and multi-byte binary rules are outside the statement (documented exclusion); the ICU rules use the general bump()',
                      'single-unit and fixed-string rules are decided exactly for all inputs whose relevant window is 9 bytes; the digit, chunk-size and raw-string scanners on all class strings up to the bound; '
